@@ -111,14 +111,20 @@ end
 
 theorem undo_plain {fs : FS} {m mem : Mem} {file f' : FileSt Bytes} {d : Dir} {F : Nat} (s : Status)
     (h1 : Ext fs m mem) (hg : mem.get s.final = some file) (hw : s.fp.WFlen)
-    (happ : s.fp.apply d F file = some (f', s.report)) (hb : s.beforeRename = none) :
-    Undoable fs m [s] (mem.put s.final f') := by
-  apply Undoable.single
+    (happ : s.fp.apply d F file = some (f', s.report)) (hb : s.beforeRename = none)
+    (hren : s.fp.rename = false) (hft : s.final = s.target) :
+    StepU fs m s (mem.put s.final f') := by
+  refine ⟨fun h => (by rw [hren] at h; cases h), fun _ => hft, ?_⟩
   intro M hM
   have hgM : M.get s.final = some f' := hM.1 _ _ (get_put_self _ _ _)
   have hrb := C04_file s.fp d F file f' s.report hw happ
   rw [← apply_dir happ] at hrb
-  exact ⟨_, _, rollbackOne_plain hb hgM hrb, ext_put_back h1 hg hM⟩
+  refine ⟨_, _, rollbackOne_plain hb hgM hrb, ext_put_back h1 hg hM, ?_, ⟨file, get_put_self _ _ _⟩, ?_⟩
+  · rw [← hft]; exact get_put_self _ _ _
+  · intro n _ hn
+    rw [get_put]
+    have : (components n == components s.final) = false := by simpa using hn
+    rw [this]; rfl
 
 theorem undo_rename {fs : FS} {m mem mem2 : Mem} {file newFile f' : FileSt Bytes} {d : Dir} {F : Nat} (s : Status)
     (h1 : Ext fs m mem) (hg : mem.get s.target = some file)
@@ -126,15 +132,25 @@ theorem undo_rename {fs : FS} {m mem mem2 : Mem} {file newFile f' : FileSt Bytes
     (hg2 : mem2.get s.final = some newFile) (hnf : newFile.content = []) (hw : s.fp.WFlen)
     (happ : s.fp.apply d F { newFile with content := file.content, deleted := false, perms := file.perms }
       = some (f', s.report))
-    (hb : s.beforeRename = some (file.deleted, newFile.deleted, newFile.perms)) :
-    Undoable fs m [s] (mem2.put s.final f') := by
-  apply Undoable.single
+    (hb : s.beforeRename = some (file.deleted, newFile.deleted, newFile.perms))
+    (hren : s.fp.rename = true) (hnew : s.fp.new = some s.final) :
+    StepU fs m s (mem2.put s.final f') := by
+  refine ⟨fun _ => hnew, fun h => (by rw [hren] at h; cases h), ?_⟩
   intro M hM
   have hgM : M.get s.final = some f' := hM.1 _ _ (get_put_self _ _ _)
   have hrb := C04_file s.fp d F _ f' s.report hw happ
   rw [← apply_dir happ] at hrb
   have stepA := ext_put_back h2 hg2 hM
   have hgt := stepA.1 _ _ (get_put_self mem s.target { file with content := [], deleted := true, perms := none })
-  exact ⟨_, _, rollbackOne_rename hb hgM hrb rfl hnf hgt, ext_put_back h1 hg stepA⟩
+  refine ⟨_, _, rollbackOne_rename hb hgM hrb rfl hnf hgt, ext_put_back h1 hg stepA, get_put_self _ _ _, ?_, ?_⟩
+  · rw [get_put]
+    split
+    · exact ⟨_, rfl⟩
+    · exact ⟨newFile, get_put_self _ _ _⟩
+  · intro n hn1 hn2
+    rw [get_put, get_put]
+    have e1 : (components n == components s.target) = false := by simpa using hn1
+    have e2 : (components n == components s.final) = false := by simpa using hn2
+    rw [e1, e2]; rfl
 
 end RQ.Abs
